@@ -114,8 +114,9 @@ def sandwich_assembly(rng):
     return asm
 
 
-def corr_grading(ctx, res, cases_spec, tag):
-    """cases_spec: list of (asm, prio or None). Runs implementation + Coq model; fills res. Returns list of (asm, impl result)."""
+def corr_grading(ctx, res, cases_spec, tag, sections=False):
+    """cases_spec: list of (asm, prio or None). Runs implementation + Coq model; fills res. Returns list of (asm, impl result).
+    sections=True adds the exact prediction of the section-list comparison (sections_oracle) to the direct oracle."""
     done = []
     for (asm, prio) in cases_spec:
         r = gc.run_impl(asm, ctx.work, prio)
@@ -127,7 +128,7 @@ def corr_grading(ctx, res, cases_spec, tag):
         res.count("mode=" + getattr(asm, "mode", ""))
         if len(asm.cells) >= 2 and asm.chops:
             res.distinct.add(json.dumps(asm.to_json(), sort_keys=True) + str(prio is not None))
-        why = gc.direct_oracle(asm, r) or sections_oracle(asm, r)
+        why = gc.direct_oracle(asm, r) or (sections_oracle(asm, r) if sections else None)
         if why:
             res.oracle_failures.append(dict(kind="assembly", assembly=asm.to_json(), injected=prio is not None,
                                             salt=getattr(prio, "salt", None), outcome=r["outcome"], why=why))
@@ -279,7 +280,7 @@ class C02(Prop):
         spec = self.cases(ctx)
         # corpus first
         spec = [(a, None) for a in load_corpus("C02")] + spec
-        done = corr_grading(ctx, res, spec, "c02")
+        done = corr_grading(ctx, res, spec, "c02", sections=True)
         res.samples = [dict(assembly=a.to_json(), injected=inj, outcome=r["outcome"], counts=r.get("counts")) for (a, inj, r) in done[:3]]
         # order independence on the implementation (direct oracle): same assembly, other insertion order / numbering
         for (asm, _inj, r) in done[: ctx.n(40, 400)]:
@@ -311,7 +312,7 @@ class C02(Prop):
         for _ in range(ctx.n(70, 900)):
             asm = sandwich_assembly(rng)
             spec += [(asm, None), (asm, make_prio(rng)), (asm, make_prio(rng))]
-        done = corr_grading(ctx, res, spec, "c02s")
+        done = corr_grading(ctx, res, spec, "c02s", sections=True)
         if res.error:
             return
         for k in range(0, len(done), 3):
